@@ -47,6 +47,9 @@ func runC12(c *Ctx) {
 	defer func() {
 		ruleDecoderBounds(c, "C12.4")
 		c04FlushOrder(c, "C12.5")
+		ruleFlushLoopComplete(c, "C12.7")
+		ruleSizeWithBytes(c, "C12.9")
+		ruleRawReadOnBuffer(c, "C12.8", "storage.(*btreeNode).decodeLeaf", "storage.(*btreeNode).decodeInternal")
 		sub := NewCtx("C12", c.W)
 		runC15(sub)
 		c.Rule("C12.6", sub.Rules["C15.1"])
